@@ -284,6 +284,12 @@ def _corr_compare(case, impl, model):
             return 'between: index model %s differs from specification model %s' % (idx, spec)
         return None
     if impl != model:
+        if k in ('upto', 'draw') and impl.isdigit() and model.isdigit():
+            # computed floats: bit-exactness is diagnostic only; the verdict relation is a tolerance
+            a, b = b2f(impl), b2f(model)
+            scale = sum(abs(x) for p in case['ivs'] for x in p) + abs(case.get('t', 0.0))
+            if abs(a - b) <= 1e-9 * scale:
+                return None
         return '%s: implementation %s, model %s' % (k, impl, model)
     return None
 
